@@ -311,8 +311,9 @@ def unit_backward(kind, pattern, ts_grad, nt):
                     and tseg[1] is trows[k - 1])
             c.check("%s:solver_options_are_the_backward_options" % tag, call["fwd"] == eff, detail="options: %r" % (sorted(call["fwd"]),))
             c.check("%s:its_own_backward_options_are_the_backward_options" % tag, call["bck"] == eff)
-            c.check("%s:the_solver_may_consume_its_options_without_changing_later_segments" % tag, call["fwd_obj"] is not fctx.bck_config
-                    and call["fwd_obj"] is not call["bck_obj"] and fctx.bck_config == eff)
+            # (the contract consumes the method entry of the dict it is given, as _SolveIVP.forward does: a shared dict shows
+            #  up as missing options in the next segment, above)
+            c.check("%s:saved_backward_options_survive_the_segment" % tag, fctx.bck_config == eff)
             c.check("%s:parameters_are_the_tensor_parameters" % tag, call["nparams"] == ntens and len(call["tparams"]) == ntens
                     and all(a is b for a, b in zip(call["tparams"], tens_params)))
             comps = call["comps0"]
